@@ -2,6 +2,12 @@
    Needs c16_pre.c, qt_core.c, qt_list.c, qt_dom.c, qt_object.c before it (one translation unit). */
 #undef _ZNK11QMetaObject4castEP7QObject
 #undef _ZNK11QMetaObject4castEPK7QObject
+#undef _ZNK7QString3midEii
+#undef _ZNK7QString4leftEi
+#undef _ZNK7QString5rightEi
+#undef _ZNK11QDomElement7tagNameEv
+#undef _ZNK8QDomNode12namespaceURIEv
+#undef _ZNK11QDomElement4textEv
 #ifdef HAVE_T_struct_QArrayData
 #define QSD(p) (*(QAD**)(p))
 #define C16_SD(d) (((struct qs*)(d))->data)
@@ -50,16 +56,48 @@ void _ZN6QTimer4stopEv(char *self) { }
 
 /* ---- serializeXml: the bytes written are not inspected, only classified by the type that was serialized ---- */
 void _ZN5QXmpp7Private12serializeXmlEPKvPFvS2_P16QXmlStreamWriterE(char *ret, char *packet, char *fn) { QSD(ret) = c16_blk(0); }
+/* inline template instantiations serializeXml<T>(const T&): overridden, the block carries the kind of nonza (c16.h: K_*) */
+void _ZN5QXmpp7Private12serializeXmlINS0_4Sasl7SuccessEEE10QByteArrayRKT_(char *ret, char *p) { QSD(ret) = c16_blk(1); }
+void _ZN5QXmpp7Private12serializeXmlINS0_4Sasl7FailureEEE10QByteArrayRKT_(char *ret, char *p) { QSD(ret) = c16_blk(2); }
+void _ZN5QXmpp7Private12serializeXmlINS0_4Sasl9ChallengeEEE10QByteArrayRKT_(char *ret, char *p) { QSD(ret) = c16_blk(3); }
+void _ZN5QXmpp7Private12serializeXmlINS0_5Sasl27SuccessEEE10QByteArrayRKT_(char *ret, char *p) { QSD(ret) = c16_blk(4); }
+void _ZN5QXmpp7Private12serializeXmlINS0_5Sasl27FailureEEE10QByteArrayRKT_(char *ret, char *p) { QSD(ret) = c16_blk(5); }
+void _ZN5QXmpp7Private12serializeXmlINS0_5Sasl29ChallengeEEE10QByteArrayRKT_(char *ret, char *p) { QSD(ret) = c16_blk(6); }
+void _ZN5QXmpp7Private12serializeXmlINS0_15StarttlsProceedEEE10QByteArrayRKT_(char *ret, char *p) { QSD(ret) = c16_blk(7); }
+void _ZN5QXmpp7Private12serializeXmlI10QXmppNonzaEE10QByteArrayRKT_(char *ret, char *p) { QSD(ret) = c16_blk(8); }
 
-/* ---- signal snapshots (hook of qt_object.c): first word of argv[1] at emission time (for elementReceived: the DOM node) ---- */
-static char *c16_sig_a1[VP_SIGLOG_CAP]; static uint32_t c16_nsig;
-void c16_on_signal(char *sender, char *mo, uint32_t idx, char **argv) { ASSERT(c16_nsig < VP_SIGLOG_CAP, "C16 env: signal snapshot log full"); ASSUME(c16_nsig < VP_SIGLOG_CAP); c16_sig_a1[c16_nsig++] = argv ? *(char**)argv[1] : 0; }
-uint32_t vp_c16_nsig(void) { return c16_nsig; }
-void vp_c16_sig_element(uint32_t i, char *out) { ASSUME(i < VP_SIGLOG_CAP); DN(out) = (struct dnode*)c16_sig_a1[i]; }
+/* ---- signals of the client (hook of qt_object.c): counted per signal in fixed slots (no symbolic log index); for
+   elementReceived the DOM node of the argument is kept (the QDomElement itself is a local of handleStanza) ---- */
+static uint32_t c16_nsig_el, c16_nsig_conn, c16_nsig_disc, c16_nsig_other; static struct dnode *c16_el_node;
+#ifdef HAVE_G__ZN19QXmppIncomingClient16staticMetaObjectE
+#define C16_CLIENT_MO ((char*)&G__ZN19QXmppIncomingClient16staticMetaObjectE)
+#else
+#define C16_CLIENT_MO ((char*)0)
+#endif
+void c16_on_signal(char *sender, char *mo, uint32_t idx, char **argv) {
+  if (mo == C16_CLIENT_MO && idx == 0) { c16_nsig_el++; c16_el_node = DN(argv[1]); }
+  else if (mo == C16_CLIENT_MO && idx == 1) c16_nsig_conn++;
+  else if (mo == C16_CLIENT_MO && idx == 2) c16_nsig_disc++;
+  else c16_nsig_other++; }
+uint32_t vp_c16_nsig(uint32_t which) { return which == 0 ? c16_nsig_el : which == 1 ? c16_nsig_conn : which == 2 ? c16_nsig_disc : c16_nsig_other; }
+void vp_c16_sig_element(char *out) { DN(out) = c16_el_node; }
 
 /* ---- cuts inside QXmppIncomingClient.cpp: log text only / stream features content ---- */
 void _ZNK26QXmppIncomingClientPrivate6originEv(char *ret, char *self) { QSD(ret) = SHARED_NULL; }
 
+
+
+/* ---- empty model block used instead of shared_null where a result is merged with model blocks (see c16_pre.c) ---- */
+static struct qs c16_empty_blk = { { {{{{ (uint32_t)-1 }}}}, 0, 0, QS_OFF }, 0, 0, 0, 1, 1, 0, 0, 0, { 0 } };
+#define C16_EMPTY (&c16_empty_blk.h)
+void _ZNK7QString3midEii(char *ret, char *self, uint32_t pos, uint32_t n) { QAD *d = QSD(self); int32_t p = (int32_t)pos, len = (int32_t)n; int nul; mid_calc((int32_t)d->f1, &p, &len, &nul);
+  if (nul) { QSD(ret) = C16_EMPTY; return; } if (p == 0 && len == (int32_t)d->f1) { QSD(ret) = qad_ref(d); return; } ASSERT(!numS(d).isnum, "mid() of an abstract number string");
+  QAD *r = qs_new((uint32_t)len, qs_hint(d)); vpl_copy16(r, 0, qs_chars(d) + p, (uint32_t)len, qs_hint(d)); qs_seal(r, 0); QSD(ret) = r; }
+void _ZNK7QString4leftEi(char *ret, char *self, uint32_t n) { _ZNK7QString3midEii(ret, self, 0, (int32_t)n < 0 ? (uint32_t)-1 : n); }
+void _ZNK7QString5rightEi(char *ret, char *self, uint32_t n) { QAD *d = QSD(self); if (n >= d->f1) { QSD(ret) = qad_ref(d); return; } _ZNK7QString3midEii(ret, self, d->f1 - n, n); }
+void _ZNK11QDomElement7tagNameEv(char *ret, char *el) { struct dnode *n = DN(el); QSD(ret) = n ? qad_ref(n->tag) : C16_EMPTY; }
+void _ZNK8QDomNode12namespaceURIEv(char *ret, char *el) { struct dnode *n = DN(el); QSD(ret) = n ? qad_ref(n->ns) : C16_EMPTY; }
+void _ZNK11QDomElement4textEv(char *ret, char *el) { struct dnode *n = DN(el); QSD(ret) = n ? qad_ref(n->text) : C16_EMPTY; }
 
 /* ---- QString helpers missing in models/qt_core.c ---- */
 /* arg(): "%N" placeholders are substituted for short patterns (the JID builders "%1@%2", "%1/%2"); longer patterns are log texts
@@ -104,20 +142,85 @@ void _ZN10QXmppUtils18generateStanzaUuidEv(char *ret) { sym16(ret, 1, 2); }
 uint8_t vp_c16_concat_eq(char *x, char *a, uint16_t ch, char *b) { QAD *X = QSD(x), *A = QSD(a), *B = QSD(b); uint32_t la = A->f1, lb = B->f1; if (X->f1 != la + 1 + lb) return 0; uint8_t ok = 1;
   for (uint32_t i = 0; i < QHINT16(X); i++) { if (i >= X->f1) break; uint16_t c = QCH16(X)[i]; uint16_t e = i < la ? QCH16(A)[i] : i == la ? ch : QCH16(B)[i - la - 1]; if (c != e) ok = 0; } return ok; }
 
+
+/* ---- QByteArray::split (PLAIN payload "authzid NUL user NUL password"): boundaries found by one scan, pieces copied to fresh blocks ---- */
+#ifdef HAVE_T_struct_QListData__Data
+#define C16_MAXP LIST_CAP
+static uint32_t vpl_c16_split_scan(QAD *a, uint8_t sep, uint32_t *st, uint32_t *ln) { uint32_t cur = 0, start = 0, n = a->f1;
+  for (uint32_t i = 0; i < QHINT8(a); i++) { if (i >= n) break; if (qb_bytes(a)[i] == sep) { if (cur < C16_MAXP) { st[cur] = start; ln[cur] = i - start; } cur++; start = i + 1; } }
+  if (cur < C16_MAXP) { st[cur] = start; ln[cur] = n - start; } return cur + 1; }
+static void vpl_c16_slice8(QAD *d, QAD *a, uint32_t from, uint32_t n) { for (uint32_t i = 0; i < QHINT8(a); i++) { if (i >= n) break; C16_BD(d)[i] = qb_bytes(a)[from + i]; } }
+void _ZNK10QByteArray5splitEc(char *ret, char *self, uint8_t sep) { QAD *a = QSD(self); ASSERT(!numB(a).isnum && !QTAG8(a), "split of an abstract number / base64 placeholder");
+  uint32_t st[C16_MAXP], ln[C16_MAXP]; for (uint32_t k = 0; k < C16_MAXP; k++) { st[k] = 0; ln[k] = 0; }
+  uint32_t np = vpl_c16_split_scan(a, sep, st, ln); ASSERT(np <= C16_MAXP, "QList capacity of the model exceeded (split)"); ASSUME(np <= C16_MAXP);
+  struct ld *l = ld_new(np);
+  for (uint32_t k = 0; k < C16_MAXP; k++) { if (k >= np) { l->array[k] = 0; continue; } QAD *p = qb_new(ln[k], qb_hint(a)); vpl_c16_slice8(p, a, st[k], ln[k]); C16_BD(p)[ln[k]] = 0; l->array[k] = (char*)p; }
+  *(struct ld**)ret = l; }
+#endif
+
+/* ---- crypto: recording oracle (DESIGN 2.3).  A digest is C16_DIGLEN fresh symbolic bytes, functionally consistent: same
+   (algorithm, input) => same bytes.  Nothing else is assumed about MD5. ---- */
+#ifndef C16_DIGLEN
+#define C16_DIGLEN 2
+#endif
+#define C16_ORC_CAP 8
+struct c16_orc { uint32_t alg; QAD *a; uint8_t out[C16_DIGLEN]; };
+static struct c16_orc c16_log[C16_ORC_CAP]; static uint32_t c16_orc_n;
+void _ZN18QCryptographicHash4hashERK10QByteArrayNS_9AlgorithmE(char *ret, char *data, uint32_t alg) { QAD *a = QSD(data);
+  ASSERT(c16_orc_n < C16_ORC_CAP, "crypto oracle log capacity"); ASSUME(c16_orc_n < C16_ORC_CAP);
+  uint8_t val[C16_DIGLEN]; for (uint32_t j = 0; j < C16_DIGLEN; j++) val[j] = vp_u8();
+  uint8_t found = 0;
+  for (uint32_t k = 0; k < C16_ORC_CAP; k++) { if (k >= c16_orc_n) break; struct c16_orc *e = &c16_log[k]; if (!found && e->alg == alg && qb_eq(e->a, a)) { found = 1; for (uint32_t j = 0; j < C16_DIGLEN; j++) val[j] = e->out[j]; } }
+  struct c16_orc *n = &c16_log[c16_orc_n++]; n->alg = alg; n->a = qad_ref(a);
+  QAD *d = qb_new(C16_DIGLEN, C16_DIGLEN); for (uint32_t j = 0; j < C16_DIGLEN; j++) { n->out[j] = val[j]; C16_BD(d)[j] = val[j]; } C16_BD(d)[C16_DIGLEN] = 0; QSD(ret) = d; }
+uint32_t vp_c16_orc_count(void) { return c16_orc_n; }
+void vp_c16_orc_input(uint32_t i, char *out) { ASSUME(i < C16_ORC_CAP); QSD(out) = qad_ref(c16_log[i].a); }
+/* lower-case hex */
+void _ZNK10QByteArray5toHexEv(char *ret, char *self) { QAD *a = QSD(self); uint32_t n = a->f1, h = qb_hint(a); ASSERT(2 * n <= QB_CAP, "QByteArray capacity of the model exceeded (toHex)"); QAD *d = qb_new(2 * n, 2 * h);
+  for (uint32_t i = 0; i < QB_CAP / 2; i++) { if (i >= n || i >= h) break; uint8_t b = qb_bytes(a)[i], hi = b >> 4, lo = b & 15; C16_BD(d)[2 * i] = (uint8_t)(hi < 10 ? '0' + hi : 'a' + hi - 10); C16_BD(d)[2 * i + 1] = (uint8_t)(lo < 10 ? '0' + lo : 'a' + lo - 10); }
+  C16_BD(d)[2 * n] = 0; QSD(ret) = d; }
+/* nonce: arbitrary bytes */
+void _ZN10QXmppUtils19generateRandomBytesEi(char *ret, uint32_t len) { QAD *d = qb_new(2, 2); C16_BD(d)[0] = vp_u8(); C16_BD(d)[1] = vp_u8(); C16_BD(d)[2] = 0; QSD(ret) = d; }
+
+/* ---- DIGEST-MD5 message grammar (QXmppSaslDigestMd5::parseMessage / serializeMessage) is CUT: it belongs to C06.  parseMessage
+   returns the directive table chosen by the harness (arbitrary values for the directives the server reads), whatever the text;
+   serializeMessage returns an opaque block.  QMap<QByteArray,QByteArray> is a class-level model with one slot per directive. ---- */
+#define C16_NDIR 9
+static const char *const c16_dirname[C16_NDIR] = { "realm", "digest-uri", "qop", "username", "nc", "cnonce", "response", "nonce", "" };
+static const uint8_t c16_dirlen[C16_NDIR] = { 5, 10, 3, 8, 2, 6, 8, 5, 0 };
+struct c16_dmap { QAD *v[C16_NDIR]; uint8_t has[C16_NDIR]; };
+static struct c16_dmap c16_dinput;
+static uint8_t c16_dinput_init;
+static void c16_dmap_clear(struct c16_dmap *m) { for (uint32_t i = 0; i < C16_NDIR; i++) { m->v[i] = qb_new(0, 0); m->has[i] = 0; } }
+void vp_c16_digest_input(uint32_t slot, char *value, uint8_t present) { if (!c16_dinput_init) { c16_dmap_clear(&c16_dinput); c16_dinput_init = 1; } ASSERT(slot < C16_NDIR - 1, "C16 env: directive slot"); c16_dinput.v[slot] = qad_ref(QSD(value)); c16_dinput.has[slot] = present; }
+static uint32_t c16_dslot(QAD *key) { for (uint32_t s = 0; s < C16_NDIR - 1; s++) { if (key->f1 == c16_dirlen[s] && vpl_cmp8(qb_bytes(key), (const uint8_t*)c16_dirname[s], c16_dirlen[s], key->f1, c16_dirlen[s]) == 0) return s; } return C16_NDIR - 1; }
+#define DMAP(self) (*(struct c16_dmap**)(self))
+static struct c16_dmap *c16_dmap_new(void) { struct c16_dmap *m = malloc(sizeof(struct c16_dmap)); ASSUME(m != 0); c16_dmap_clear(m); return m; }
+void _ZN4QMapI10QByteArrayS0_EC2Ev(char *self) { DMAP(self) = c16_dmap_new(); }
+void _ZN4QMapI10QByteArrayS0_EC1Ev(char *self) { DMAP(self) = c16_dmap_new(); }
+void _ZN4QMapI10QByteArrayS0_ED2Ev(char *self) { }
+void _ZN4QMapI10QByteArrayS0_ED1Ev(char *self) { }
+char* _ZN4QMapI10QByteArrayS0_EixERKS0_(char *self, char *key) { struct c16_dmap *m = DMAP(self); uint32_t s = c16_dslot(QSD(key)); m->has[s] = 1; return (char*)&m->v[s]; }
+void _ZNK4QMapI10QByteArrayS0_E5valueERKS0_S3_(char *ret, char *self, char *key, char *def) { struct c16_dmap *m = DMAP(self); uint32_t s = c16_dslot(QSD(key));
+  ASSERT(s < C16_NDIR - 1, "QMap<QByteArray,QByteArray> model: unknown directive read"); QSD(ret) = m->has[s] ? qad_ref(m->v[s]) : qad_ref(QSD(def)); }
+void _ZN18QXmppSaslDigestMd512parseMessageERK10QByteArray(char *ret, char *ba) { if (!c16_dinput_init) { c16_dmap_clear(&c16_dinput); c16_dinput_init = 1; } struct c16_dmap *m = c16_dmap_new(); *m = c16_dinput; DMAP(ret) = m; }
+void _ZN18QXmppSaslDigestMd516serializeMessageERK4QMapI10QByteArrayS1_E(char *ret, char *map) { QAD *d = qb_new(1, 1); C16_BD(d)[0] = '#'; C16_BD(d)[1] = 0; QSD(ret) = d; }
+
 /* ---- constant tables: a FRESH block per call whose content is selected by a (possibly symbolic) index ---- */
 #define C16_NAMELEN 36
-#define C16_NTAB 6
+#define C16_NTAB 8
 static const uint8_t c16_tab[C16_NTAB][8][C16_NAMELEN + 1] = {
   { "iq", "message", "presence", "x" },
   { "", "set", "get", "subscribe", "subscribed", "result", "chat" },
   { "bind", "session", "query" },
   { "urn:ietf:params:xml:ns:xmpp-bind", "urn:ietf:params:xml:ns:xmpp-session", "jabber:iq:roster", "" },
   { "urn:ietf:params:xml:ns:xmpp-sasl", "urn:xmpp:sasl:2", "jabber:client", "urn:ietf:params:xml:ns:xmpp-tls", "jabber:server", "" },
-  { "PLAIN", "DIGEST-MD5", "ANONYMOUS", "SCRAM-SHA-1", "plain", "" } };
-static const uint8_t c16_tablen[C16_NTAB] = { 8, 10, 7, 35, 32, 11 };   /* longest entry per table = hint of the fresh block */
+  { "PLAIN", "DIGEST-MD5", "ANONYMOUS", "SCRAM-SHA-1", "plain", "" },
+  { "starttls", "auth", "iq", "message", "proceed" },
+  { "auth", "response", "abort", "authenticate", "success" } };
+static const uint8_t c16_tablen[C16_NTAB] = { 8, 10, 7, 35, 32, 11, 8, 12 };   /* longest entry per table = hint of the fresh block */
 void vp_c16_pick(char *out, uint32_t table, uint32_t idx) { ASSERT(table < C16_NTAB, "C16 env: table"); ASSUME(table < C16_NTAB); ASSUME(idx < 8);
   uint32_t n = 0; for (uint32_t i = 0; i < C16_NAMELEN; i++) { if (i >= c16_tablen[table]) break; if (c16_tab[table][idx][i]) n = i + 1; }
   QAD *d = qs_new(n, c16_tablen[table]); for (uint32_t i = 0; i < C16_NAMELEN; i++) { if (i >= c16_tablen[table]) break; C16_SD(d)[i] = c16_tab[table][idx][i]; } QSD(out) = d; }
 void vp_dom_truncate(char *el, uint32_t n) { struct dnode *d = DN(el); ASSUME(n <= d->nch); for (uint32_t i = d->nch; i < DOM_MAXCH; i++) d->ch[i] = 0; d->nch = n; }
-void vp_c16_digest_input(uint32_t slot, char *value, uint8_t present) { }
 #endif
